@@ -230,7 +230,7 @@ def _(c):
         c.ensures("establishes:" + lbl, e)
     c.ensures("starts-uninitialised-with-nothing-registered",
               "self.state == TransactionState.UNINITIALIZED and self._pid_and_epoch[0] == -1 and self._pid_and_epoch[1] == -1"
-              " and len(self._pending_txn_offsets) == 0 and self._txn_consumer_group is None and self._abortable_error is None"
+              " and len(self._pending_txn_offsets) == 0 and is_empty(self._txn_consumer_groups) and self._abortable_error is None"
               " and forall(TP, lambda q: q not in self._txn_partitions and q not in self._pending_txn_partitions)"
               " and self.transactional_id == transactional_id")
 
